@@ -1026,10 +1026,10 @@ func (fc *funcContext) makeReceiver(e *ast.SelectorExpr) *expression {
 		x = fc.setType(fakeSel, recvType)
 	}
 
-	if _, isTypeParam := recvType.(*types.TypeParam); !isTypeParam && types.IsInterface(recvType) {
-		// Setting up an interface type is what makes a method call on its nil
-		// value fail with a run-time error: keep the type's declaration alive.
-		fc.typeName(recvType)
+	if types.IsInterface(recvType) {
+		// The interface value may be nil; the interface type itself need not be
+		// alive for the call (see nilMethodDecls).
+		fc.declareNilMethod(fc.methodName(sel.Obj().(*types.Func)))
 	}
 
 	_, isPointer := recvType.Underlying().(*types.Pointer)
